@@ -355,13 +355,19 @@ package syntax
 //@   ensures c.sub == sub
 //@   ensures[meaning] forall ch rune :: Member(*c, ch) == (old(BaseMember(*c, ch)) && !(sub != nil && MemberP(sub, ch)))
 
-// Whether a program contains the \G opcode (walks the opcode stream; trusted, the opcode stream's shape is the writer's invariant)
-//@ ghost func UsesStart(c *Code) bool
+// Whether a program contains the \G opcode: some instruction boundary of the opcode stream (OpStart, defined with the
+// C02 contracts of code.go below) carries the opcode Start. The walk is verified against that definition; what it
+// needs from the writer is StreamWF (every instruction is a known opcode and lies inside the stream).
+//@ spec func UsesStart(c *Code) bool = exists q int :: OpStart(c.Codes, q) && 0 <= q && q < len(c.Codes) && OpOf(c.Codes, q) == Start
 //@ func (c *Code) UsesStartAnchor() (b bool)
-//@   trusted opcode-stream walk; relies on the writer emitting well-formed instruction sizes
+//@   props C02 C03 C10
 //@   pure
-//@   requires c != nil
+//@   requires c != nil && StreamWF(c.Codes)
 //@   ensures b == UsesStart(c)
+//@   loop 0:
+//@     invariant 0 <= pos && pos <= len(c.Codes) && OpStart(c.Codes, pos)
+//@     invariant[none] forall q int {OpStart(c.Codes, q)} :: OpStart(c.Codes, q) && 0 <= q && q < pos ==> OpOf(c.Codes, q) != Start
+//@     decreases len(c.Codes) - pos
 
 // ---------------------------------------------------------------------------------------------
 // C04: compile-time facts. Minimum / maximum match length (tree.go) against a ghost semantics of node kinds.
